@@ -153,7 +153,7 @@ func Mux(a Args) error {
 			short = sn[[2]uint32{0, c.Msg.Code}]
 		}
 		out.Emit(runMux(id, &c, "direct", short))
-		if id%8 == int(a.Seed%8) {
+		if id%8 == int(a.Seed%8) && short != "" { // a command the dictionary does not define cannot be read from a connection
 			out.Emit(runMux(id, &c, "conn", short))
 		}
 		return nil
